@@ -50,6 +50,18 @@ CLAIMED = {
  "C16": C("exploration", "complete enumeration of all k-mers for k<=11 (13 thorough) + structured k-mers for every k + "+PBT+" for random k-mers and rolling sequences",
    "Round trips, reverse complement, masks, single-window canonical form and hashes for every k-mer at small k; rolling vs from-scratch for generated sequences with N."+EXPL,
    "Harness packing is the documented encoding.", "DESIGN.md §5 C16"),
+ "C11": C("exploration", PBT+": differential between thread counts and between repeated fresh processes (fresh hash seeds) for every subcommand with --threads; known-finding filter for ska lo on overlapping variant groups",
+   "Sample counts on both sides of the parallel-merge rule, thread counts 1-16, repeated runs; outputs compared under the property's per-command equivalence; success at one thread implies success at all. Schedules are sampled by the OS, not enumerated."+EXPL,
+   "Cannot own rayon's schedule; one recorded finding (ska lo, overlapping variant groups) is printed as KNOWN-FINDING.", "DESIGN.md §5 C11, §4 F11"),
+ "C17": C("exploration", PBT+": constructed isolated-SNP genome sets through ska build/lo (with and without reference), validity predicates on arbitrary inputs",
+   "Planted isolated SNPs must all be called (reference-free) with the true alleles; with a reference every call must be true and consistently written; arbitrary inputs must give well-formed output."+EXPL,
+   "Completeness only inside the isolation preconditions (unique (k-1)-mers, >= 2k apart, >= k from the ends).", "DESIGN.md §5 C17"),
+ "C18": C("exploration", PBT+": constructed isolated-indel genome sets through ska build/lo; per-record validity predicate by sequence containment; aggregate recall",
+   "Every indel record must describe a real difference with correct genotypes and match one planted indel once; recall >= 90% in aggregate."+EXPL,
+   "Preconditions by construction; recall aggregated over the run.", "DESIGN.md §5 C18"),
+ "C19": C("fault_enumeration", "fault enumeration: every prefix and every single-bit flip of generated valid .skf files (small files always complete; multi-frame files complete in the thorough tier, boundary/header-complete + seeded sample in quick) through the CLI's load dispatch, plus CLI sample",
+   "Oracle 'rejected or identical content' on four files (64/128-bit, single/multi-frame, compressed/uncompressed frames); CLI subcommands on rejected files must fail, leave the input untouched and write nothing.",
+   "Fault model = truncation and single-bit flips only; files generated by the harness through the public API.", "DESIGN.md §5 C19"),
  "C20": C("exploration", PBT+": harness re-implementation of the mixture likelihood/gradient/cutoff vs hooked functions; simulated read pairs vs model histogram and CLI table",
    "Likelihood, analytic gradient (also vs finite differences) and cutoff at generated parameter points; exact histogram, cutoff, labels and densities for simulated read sets."+EXPL,
    "Needs the verif-hooks feature; optimiser convergence not asserted.", "DESIGN.md §5 C20"),
